@@ -82,6 +82,7 @@ type Sorts struct {
 	named    map[string]types.Type
 	tagIDs   map[string]int
 	building map[string]bool
+	embIDs   map[string]int
 }
 
 func NewSorts(tb *TB) *Sorts {
